@@ -181,7 +181,7 @@ def saveload_family(rep, n_cases, n_ops, n_points, known_classes=(), nproc=16):
 
 SESSIONS = [
     {"name": "imports",
-     "source": ("import math\nfrom bardic.stdlib.economy import Wallet\n"
+     "source": ("import math\nimport json\nimport bardic.stdlib.dice as dice\nfrom bardic.stdlib.economy import Wallet\n"
                 ":: Start\n~ gold = 10\n~ purse = Wallet(5)\nAt the gate.\n+ [Enter] -> Hall\n\n"
                 ":: Hall\nThe hall. {gold} gold.\n+ [Pay the toll] -> Toll\n+ [Count] -> Count\n\n"
                 ":: Toll\n~ gold = math.floor(gold / 3)\n~ purse2 = Wallet(gold)\nThe keeper leaves you {gold} gold, purse {purse2.gold}.\n+ [Back] -> Hall\n\n"
@@ -194,6 +194,12 @@ SESSIONS = [
                 "+ {_inputs.get('reader_name')} [Sign the guest book] -> Book\n\n"
                 ":: Book\nSigned: {_inputs.get('reader_name', '?')}\n+ [Back] -> Camp\n"),
      "inputs": {"reader_name": "Kate"}, "pre": [("choose", 0)], "post": [("choose", 0), ("choose", 1), ("choose", 0), ("choose", 0)]},
+    {"name": "stdlib-subclass",
+     "source": ("from vclasses import Backpack\n"
+                ":: Start\n~ pack = Backpack(10, 'Mira', 4)\n~ ok = pack.add({'name': 'Rope', 'weight': 4, 'value': 2})\n~ pack.max_weight = 3\nPacked.\n+ [Go] -> Road\n\n"
+                ":: Road\nOn the road.\n+ [Look] -> Look\n\n"
+                ":: Look\n{pack.describe()} weight {pack.current_weight}/{pack.max_weight}\n+ [Back] -> Road\n"),
+     "pre": [("choose", 0)], "post": [("choose", 0), ("choose", 0), ("choose", 0)]},
     {"name": "state-underscore",
      "source": (":: Start\n~ _state['_seen'] = 1\nHi.\n+ [Go] -> Room\n\n:: Room\nRoom.\n+ [Look] -> Look\n\n"
                 ":: Look\nSeen {_state.get('_seen', 0)}.\n+ [Back] -> Room\n"),
@@ -246,3 +252,83 @@ def session_probes(rep):
             rep.violations.append({"cls": None, "family": "c05-sessions", "what": f"session '{s['name']}': {type(ex).__name__}: {str(ex)[:200]}", "source": s["source"]})
     rep.coverage.setdefault("families", {})["c05-sessions"] = {"cases": n, "what": [s["name"] for s in SESSIONS]}
     rep.coverage["evaluations"] = rep.coverage.get("evaluations", 0) + n
+
+
+
+# ------------------------------------------------------------------ undo with standard-library objects (real code only)
+
+SHOP_STORY = ("from bardic.stdlib.economy import Wallet, Shop\nfrom bardic.stdlib.inventory import Inventory\n"
+              ":: Start\n~ w = Wallet(40)\n~ inv = Inventory(20)\n"
+              "~ shop = Shop([{'name': 'Rope', 'weight': 2, 'value': 10}, {'name': 'Gem', 'weight': 1, 'value': 30}], sell_back_rate=0.5)\n"
+              "~ log = []\nMarket.\n+ [Enter] -> Stall\n\n"
+              ":: Stall\nGold {w.gold}, carrying {len(inv.items)}, stock {len(shop.items)}.\n"
+              "+ [Buy rope] -> Buy('Rope')\n+ [Buy gem] -> Buy('Gem')\n+ [Sell rope] -> Sell('Rope')\n+ [Sell gem] -> Sell('Gem')\n+ [Haggle] -> Haggle\n\n"
+              ":: Buy(what)\n~ ok = shop.buy(what, w, inv)\n~ log.append(('buy', what, ok))\nBought {what}: {ok}.\n+ [Back] -> Stall\n\n"
+              ":: Sell(what)\n~ ok = shop.sell(what, w, inv)\n~ log.append(('sell', what, ok))\nSold {what}: {ok}.\n+ [Back] -> Stall\n\n"
+              ":: Haggle\n~ shop.set_discount(0.5)\nCheaper now.\n+ [Back] -> Stall\n")
+
+
+def undo_sessions(rep, n_walks):
+    """random walks with undo / redo over a story whose variables are stdlib objects: after undo everything a story can
+    observe of every variable is what it was before the undone choice; after redo what it was before the undo"""
+    from bardic.runtime.engine import BardEngine
+    import fam_codec
+    def snap(e):
+        with quiet():
+            o = e.current()
+        return {"vars": {k: fam_codec.observe(v) for k, v in e.state.items() if not k.startswith("_") and not isinstance(v, type) and not callable(v)},
+                "content": o.content, "choices": [c["text"] for c in o.choices], "pid": e.current_passage_id}
+    done = 0
+    try:
+        story = corr_play.compile_source(SHOP_STORY)
+    except Exception as ex:  # noqa
+        rep.violations.append({"cls": None, "family": "c04-stdlib", "what": f"probe story does not compile: {ex}", "source": SHOP_STORY})
+        return
+    for wi in range(n_walks):
+        r = rng_for(rep.seed, "undo-sessions", wi)
+        with quiet():
+            e = BardEngine(copy.deepcopy(story))
+        past, future, ops = [], [], []
+        bad = None
+        for step in range(r.randint(6, 24)):
+            k = r.random()
+            before = snap(e)
+            if k < 0.6:
+                n = len(before["choices"])
+                if n == 0:
+                    break
+                i = r.randrange(n)
+                ops.append({"op": "choose", "i": i})
+                with quiet():
+                    e.choose(i)
+                past.append(before)
+                past = past[-50:]
+                future = []
+            elif k < 0.85:
+                ops.append({"op": "undo"})
+                with quiet():
+                    ret = e.undo()
+                if past:
+                    want = past.pop()
+                    future.append(before)
+                    if ret is not True or snap(e) != want:
+                        bad = f"undo did not restore what the story could observe before the undone choice: {json.dumps(fam_codec.first_diff(want, snap(e), ''))[:300]}"
+                elif ret is not False:
+                    bad = "undo with nothing to undo answered True"
+            else:
+                ops.append({"op": "redo"})
+                with quiet():
+                    ret = e.redo()
+                if future:
+                    want = future.pop()
+                    past.append(before)
+                    if ret is not True or snap(e) != want:
+                        bad = f"redo did not return to the situation the undo left: {json.dumps(fam_codec.first_diff(want, snap(e), ''))[:300]}"
+                elif ret is not False:
+                    bad = "redo with nothing to redo answered True"
+            if bad:
+                rep.violations.append({"cls": None, "family": "c04-stdlib", "what": bad, "source": SHOP_STORY, "ops": ops, "step": len(ops) - 1})
+                break
+        done += 1
+    rep.coverage.setdefault("families", {})["c04-stdlib"] = {"walks": done}
+    rep.coverage["evaluations"] = rep.coverage.get("evaluations", 0) + done
